@@ -566,6 +566,13 @@ def gen_plan(rng):
     r = rng.random()
     if r < 0.25:
         return {}
+    if r < 0.40:
+        # every write is hit by a tolerable burst (at most len(BACKOFF) failures in a row, then success): the retry
+        # budget is per write, so the bursts of earlier writes must not eat into the budget of later ones
+        status = []
+        for _ in range(rng.choice([2, 3, 4])):
+            status += [True] * rng.choice([1, 2, 2]) + [False]
+        return {"status": status}
     status = [False] if rng.random() < 0.85 else []      # mostly let the initial record through
     for _ in range(rng.choice([1, 2, 3])):
         status += [False] * rng.choice([0, 0, 1, 2]) + [True] * rng.choice([1, 2, 2, 3, 3, 4])
